@@ -12,13 +12,13 @@ import dlib  # noqa: E402
 
 logging.disable(logging.CRITICAL)
 
-from traits.api import (Any, DelegatesTo, HasTraits, Instance, Int, PrototypedFrom, Range,  # noqa: E402
+from traits.api import (Any, DelegatesTo, HasTraits, Instance, Int, Property, PrototypedFrom, Range,  # noqa: E402
                         push_exception_handler)
 
 push_exception_handler(handler=lambda *a: None, reraise_exceptions=True, main=True)
 
 EXN = ["TraitError", "AttributeError", "DelegationError", "RecursionError", "KeyError"]
-TOK = {0: "x", 1: "y", 2: "a", 3: "b", 4: "r", 5: "_items", 10: "p_", 11: "pre_", 12: "q_", 20: "parent", 21: "other"}
+TOK = {0: "x", 1: "y", 2: "a", 3: "b", 4: "r", 5: "_items", 10: "p_", 11: "pre_", 12: "q_", 20: "parent", 21: "other", 22: "ref"}
 
 
 BAD = "bad"
@@ -55,6 +55,15 @@ def _value_eq(self, other):
             == {k: v for k, v in other.__dict__.items() if k in names})
 
 
+def _set_parent(self, v):
+    # the setter announces the change with the exact old value (an uncached Property with depends_on reports old =
+    # Undefined, and then nothing can be unhooked from the previous delegate - inherent to computed references)
+    old = self.parentstore
+    self.parentstore = v
+    if old is not v:
+        self.trait_property_changed("parent", old, v)
+
+
 def run_case(case):
     classes = []
     for i, c in enumerate(case["classes"]):
@@ -72,6 +81,14 @@ def run_case(case):
         ns = {"__prefix__": nm(c["prefix"]), "_parent_default": lambda self: DEFAULTS.get(id(self), NEXT[0])}
         for tn, spec in c["traits"]:
             ns[nm(tn)] = make_trait(spec, listenable=list(tn) not in unlisten)
+        if c.get("propref"):
+            # the delegate reference `parent` is a PROPERTY (computed, never in the instance __dict__ under its own name)
+            # over a private stored trait; validation (Instance) and the default initialiser move to the stored trait
+            ns["parentstore"] = Instance(HasTraits)
+            ns["_parentstore_default"] = ns.pop("_parent_default")
+            ns["parent"] = Property(Instance(HasTraits))
+            ns["_get_parent"] = lambda self: self.parentstore
+            ns["_set_parent"] = _set_parent
         if case.get("eq"):
             ns.update(_plain_names=frozenset(nm(tn) for tn, spec in c["traits"] if spec[0] == "Normal"),
                       __eq__=_value_eq, __hash__=object.__hash__)
@@ -97,9 +114,12 @@ def run_case(case):
 
     for spec in case["objs"]:
         cls = classes[spec["cls"]]
-        if spec.get("link_default"):   # the delegate comes from the link attribute's default initialiser; nothing is read
+        if spec.get("link_default") or spec.get("via_default"):
+            # the delegate comes from the link attribute's default initialiser (link_default: nothing is read before the
+            # first operation; via_default: a class whose delegate reference is itself a deferring attribute needs its
+            # link while the listeners are being set up, before constructor keywords are applied)
             NEXT[0] = to_py(spec["dict"][0][1])     # the initialiser may already run inside the constructor
-            o = cls()
+            o = cls(**({nm(tn): to_py(v) for tn, v in spec["dict"][1:]} if spec.get("via_default") else {}))
             DEFAULTS[id(o)] = NEXT[0]
             NEXT[0] = None
             pool.append(o)
